@@ -177,6 +177,10 @@ func (t *Token) validate() error {
 		errs = errors.Join(errs, fmt.Errorf("token nonce too small"))
 	}
 
+	if _, err := command.Parse(t.command.String()); err != nil {
+		errs = errors.Join(errs, fmt.Errorf("invalid command: %w", err))
+	}
+
 	// what is sealed must be readable again: time bounds and policy integers within the 53-bit safe range
 	safeTime := func(ti *time.Time, fieldname string) {
 		if ti != nil && (ti.Unix() > limits.MaxInt53 || ti.Unix() < limits.MinInt53) {
